@@ -25,7 +25,7 @@ ASSUMPTIONS = [
     "shared directories are created in the prologue and never removed), so the per-handle-order-respecting "
     "sequentialisations all give each worker the results of its own stream run alone",
     "a saved manifest is judged through its loaded contents (C09/C10 own the text format)",
-    "the deadlock detector is a deadline (60 s per det case, 90 s for the workers of a free case)",
+    "the deadlock detector is a deadline (40 s per det case, 45 s for the workers of a free case); in det mode a throttle slot still taken 4 s after every non-parked PutB has returned counts as leaked",
 ]
 TRUSTED = ["executable MD5 in Lean (locators of flushed blocks), compared with Go crypto/md5 through the shapes",
            "the Keep stub of the Go driver (parks / delays / fails PutB, snapshots the buffer on entry and compares "
@@ -400,6 +400,10 @@ def flags_of(impl):
 def oracle_common(impl):
     if impl.startswith(("panic", "CRASH", "bad-op", "load=err")):
         return "implementation " + impl[:300]
+    if "THROTTLE-LEAK" in impl:
+        return ("a background writer did not give its throttle slot back (the bound on concurrent writers shrinks for "
+                "good; with concurrentWriters = 4 every later flush blocks for ever after four of them): "
+                + impl[impl.find("THROTTLE-LEAK"):][:200])
     if "DEADLOCK" in impl:
         return "operation did not finish before the deadline (deadlock?): " + impl[impl.find("DEADLOCK"):][:400]
     return None
